@@ -347,7 +347,11 @@ func (m *Monitor) after(o Op, p *preState, res perfResult) {
 		}
 		now := m.userCells(ctx, recv)
 		for t, x := range want {
-			if got := new(big.Int).Sub(tot(now, t), tot(p.user[recv], t)); got.Cmp(big.NewInt(x)) != 0 {
+			got := new(big.Int).Sub(tot(now, t), tot(p.user[recv], t))
+			if p.refunds[recv] && got.Cmp(big.NewInt(x)) > 0 {
+				continue // the observation of this claim also timed out an outgoing call whose refund address is the receiver
+			}
+			if got.Cmp(big.NewInt(x)) != 0 {
 				m.fail("C04:bridge-call-in:receiver-not-credited", fmt.Sprintf("%s: the designated receiver (account %d: %s) holds %s more of %s after the call, the call bridged in %d",
 					o.Coq(), recv, map[bool]string{true: "the sender's account, memo = send-call-to marker", false: "`to`"}[o.Memo == 2], got, w.Toks[t].Symbol, x))
 				break
